@@ -465,6 +465,21 @@ func hsGenerate(r *rng, nRandom int) []*hsCase {
 		cases = append(cases, &hsCase{versions: base.versions, allowed: base.allowed, allowedNil: base.allowedNil, tls: "none", kind: "stream", stream: s.b, eof: s.eof, tr: "id"})
 		cases = append(cases, &hsCase{versions: []int{1}, allowed: []string{"netrpc", "grpc"}, tls: "static", mux: true, kind: "stream", stream: s.b, eof: s.eof, tr: "id"})
 	}
+	// long first lines: blanks before (and after) an acceptable line, sized so that a reader's buffer boundary
+	// (512 … 64 Ki) falls inside each field of the line — the whole line must be used, never a fragment of it
+	for bi, b := range baselines {
+		l, _ := hsCompose(b, "no-newline-eof")
+		for _, B := range []int{512, 4096, 8192, 32768, 65536} {
+			for k := 1; k < len(l)+2; k += 1 + len(l)/7 {
+				lead := append(append(bytesRepeat(' ', B-k), l...), '\n')
+				cfg := cfgs[(bi*7+k)%len(cfgs)]
+				cases = append(cases, &hsCase{versions: cfg.versions, allowed: cfg.allowed, allowedNil: cfg.allowedNil, tls: cfg.tls, mux: cfg.mux, kind: "stream", stream: lead, tr: "id"})
+				cases = append(cases, &hsCase{versions: []int{1, 2}, allowed: []string{"netrpc", "grpc"}, tls: "static", mux: true, kind: "stream", stream: lead, tr: "id"})
+			}
+			trail := append(append(append([]byte{}, l...), bytesRepeat(' ', B)...), '\n')
+			cases = append(cases, &hsCase{versions: []int{1, 2}, allowed: []string{"netrpc", "grpc"}, tls: "static", mux: true, kind: "stream", stream: trail, tr: "id"})
+		}
+	}
 	cases = append(cases, &hsCase{versions: []int{1}, allowed: []string{"netrpc"}, allowedNil: true, tls: "none", kind: "exited", tr: "id"})
 	// random combinations
 	for i := 0; i < nRandom; i++ {
